@@ -5,6 +5,7 @@
 -/
 import Ladybug.DrvCore
 import Ladybug.Model.DesignDay
+import Ladybug.Model.DesignDayObj
 
 open Drv DD
 
@@ -190,8 +191,122 @@ def showDts (l : List (Except Cal.Err Cal.DT)) : String :=
 def date? (leap mo da : String) : Option Cal.D := do
   pure ⟨← mo.toNat?, ← da.toNat?, ← bool? leap⟩
 
+/-! ### histories on one object (round 3) -/
+
+def hexStr? (cs : List Char) : Option String := do
+  let bs ← bytesOfHex cs
+  String.fromUTF8? (ByteArray.mk bs.toArray)
+
+def arg? (t : String) : Option (Arg String) :=
+  match t.toList with
+  | ['O'] => some .other
+  | 'N' :: cs => (fun s => Arg.num s) <$> hexStr? cs
+  | 'S' :: cs => (fun s => Arg.str s) <$> hexStr? cs
+  | _ => none
+
+def flag? (t : String) : Option Bool :=
+  if t = "B1" then some true else if t = "B0" then some false else none
+
+def sArg? (t : String) : Option String :=
+  match arg? t with
+  | some (.str s) => some s
+  | _ => none
+
+def wbrArg? (t : String) : Option (WBR String) :=
+  match arg? t with
+  | some .other => some .blank
+  | some (.num x) => some (.num x)
+  | _ => none
+
+def intArg? (t : String) : Option Int :=
+  match arg? t with
+  | some (.num x) => x.toInt?
+  | _ => none
+
+def op? (t : List String) : Option (Op String) :=
+  match t with
+  | ["read"] => some .read
+  | ["name", a] => Op.setName <$> arg? a
+  | ["day_type", a] => Op.setDayType <$> arg? a
+  | ["db_max", a] => Op.setDbMax <$> arg? a
+  | ["db_range", a] => Op.setDbRange <$> arg? a
+  | ["mod_type", a] => Op.setModType <$> sArg? a
+  | ["mod_sched", a] => Op.setModSched <$> sArg? a
+  | ["h_type", a] => Op.setHumType <$> arg? a
+  | ["h_value", a] => Op.setHumValue <$> arg? a
+  | ["pressure", a] => Op.setPressure <$> arg? a
+  | ["rain", b] => Op.setRain <$> flag? b
+  | ["snow", b] => Op.setSnow <$> flag? b
+  | ["sched", a] => Op.setHumSched <$> sArg? a
+  | ["wbr", a] => Op.setWbr <$> wbrArg? a
+  | ["ws", a] => Op.setWindSpeed <$> arg? a
+  | ["wd", a] => Op.setWindDir <$> arg? a
+  | ["date", a, b] =>
+    if a = "O" then some (.setDate none) else do
+      let m ← intArg? a
+      let d ← intArg? b
+      pure (.setDate (some (m, d)))
+  | ["dst", b] => Op.setDst <$> flag? b
+  | ["clearness", a] => Op.setClearness <$> arg? a
+  | ["tau_b", a] => Op.setTauB <$> arg? a
+  | ["tau_d", a] => Op.setTauD <$> arg? a
+  | ["use_2017", b] => Op.setUse2017 <$> flag? b
+  | ["beam", a] => Op.setBeam <$> sArg? a
+  | ["diff", a] => Op.setDiff <$> sArg? a
+  | ["loc", c, la, lo, tz, el] =>
+    if c = "O" then some (.setLoc none) else do
+      let c ← sArg? c
+      match arg? la, arg? lo, arg? tz, arg? el with
+      | some (.num a), some (.num b), some (.num z), some (.num e) => some (.setLoc (some ⟨c, a, b, z, e⟩))
+      | _, _, _, _ => none
+  | ["new_db", a, b, c, d] => do
+    pure (.newDb (← arg? a) (← arg? b) (← sArg? c) (← sArg? d))
+  | ["new_hum", ty, v, p, r, s, sc, w] => do
+    pure (.newHum (← arg? ty) (← arg? v) (← arg? p) (← flag? r) (← flag? s) (← sArg? sc) (← wbrArg? w))
+  | ["new_wind", a, b] => do
+    pure (.newWind (← arg? a) (← arg? b))
+  | ["new_sky", m, d, dst, kind, a1, a2, a3] =>
+    if m = "O" then some (.newSky none) else do
+      let mo ← intArg? m
+      let da ← intArg? d
+      let dst ← flag? dst
+      let k : SkyKind (Arg String) ←
+        if kind = "clear" then SkyKind.clear <$> arg? a1
+        else if kind = "tau" then do pure (SkyKind.tau (← arg? a1) (← arg? a2) (← flag? a3))
+        else if kind = "base" then do pure (SkyKind.base (← sArg? a1) (← sArg? a2))
+        else none
+      pure (.newSky (some ⟨mo, da, false, dst, k⟩))
+  | _ => none
+
+/-- split a token list at the `;` tokens -/
+def splitOps (t : List String) : List (List String) :=
+  let r := t.foldl (fun (acc : List (List String) × List String) x =>
+    if x = ";" then (acc.2.reverse :: acc.1, []) else (acc.1, x :: acc.2)) ([], [])
+  (r.2.reverse :: r.1).reverse
+
+def showOut : Out → String
+  | .done => "ok"
+  | .refused .assert => "refused:assert"
+  | .refused .value => "refused:value"
+  | .refused .attr => "refused:attr"
+  | .outside => "outside"
+
+def histLine (toks : List String) : String :=
+  match dd? toks with
+  | some (d, rest) =>
+    match loc? rest with
+    | some (l, rest) =>
+      match (splitOps rest).drop 1 |>.mapM op? with
+      | some ops =>
+        let tr := trace (⟨d, l⟩ : Obj String) ops
+        "ok " ++ " | ".intercalate (tr.map fun p => showOut p.2 ++ " " ++ showDD p.1.dd ++ " " ++ showLoc p.1.loc)
+      | none => "bad-op"
+    | none => "bad-op"
+  | none => "bad-op"
+
 def handle (toks : List String) : String :=
   match toks with
+  | "hist" :: rest => histLine rest
   | ["db", mx, rng] =>
     match floatBits? mx, floatBits? rng with
     | some a, some b => showFloats (hourlyDryBulb a b)
